@@ -387,6 +387,9 @@ def check(case):
         if refs[i].ambiguous:
           return Result(False, classes + ["ambiguous-eigenvalue-cut"], ambiguous=True)
         blk = so_state.blocks[n]
+        require(hasattr(blk, "stats"), "skip-rules-as-documented",
+                f"{tag}: the leaf is treated as excluded from preconditioning although no dimension exceeds "
+                f"skip_preconditioning_any_dim_gt={o['skip_gt']} and skip_rank1={o['skip_rank1']}")
         for ax in range(len(refs[i].padded)):
           rs = _rel(blk.stats[ax], refs[i].stats[ax])
           require(rs <= 1e-8, "shampoo-statistics", f"{tag} axis {ax}: statistics differ from the decayed block covariances by {rs:.3g}")
@@ -396,6 +399,16 @@ def check(case):
                   f"{tag} axis {ax}: roots differ from the inverse {2 * len(refs[i].padded)}-th roots "
                   f"(per-block 1e-6 eigenvalue cut) by {rr:.3g}")
       else:
+        require(hasattr(so_state.sketches[n], "axes"), "skip-rules-as-documented",
+                f"{tag}: the leaf is treated as excluded from preconditioning although the documented skip rules do not apply")
+        # sketch cadence: refreshed exactly on multiples of update_freq
+        prev_sk = second_order_state(states[c], o).sketches[n]
+        same = all(np.asarray(a).tobytes() == np.asarray(b).tobytes()
+                   for a, b in zip(__import__("jax").tree.leaves(prev_sk), __import__("jax").tree.leaves(so_state.sketches[n])))
+        if c % o["sfreq"] != 0:
+          require(same, "sketch-refresh-on-schedule", f"{tag}: sketch changed on a non-refresh step (update_freq {o['sfreq']})")
+        elif np.any(g):
+          require(not same, "sketch-refresh-on-schedule", f"{tag}: sketch did not change on a refresh step (update_freq {o['sfreq']})")
         base, dbase = sketchy_direction(so_state, n, g, o, shapes[i])
       gu = ada[c][n] if ada is not None else graft.step(i, g)
       want = chain.finish(i, gu, base, c, np.asarray(params[n], np.float64), masked[i],
